@@ -742,7 +742,7 @@ Definition copy_body (sb sl1 : mst) (name : str) (bh : nat) : mst * mst * option
         let sl5 := fst (m_step sl4 (HClose lh)) in (sb3, sl5, Some (E KEIO))
       end
     end
-  | (sl2, r) => (sb, sl2, match res_err r with Some e => Some e | None => Some (E KOther) end)
+  | (sl2, r) => (sb, after_failed_create m_step sl2 name, match res_err r with Some e => Some e | None => Some (E KOther) end)
   end.
 
 Lemma copy_file_prep sb sl name bh :
@@ -752,7 +752,7 @@ Lemma copy_file_prep sb sl name bh :
   | (sl1, None) => copy_body sb sl1 name bh
   end.
 Proof.
-  unfold copy_file, dir_prep, copy_body. destruct (l_exists m_step sl (copy_dir name)) as [sl0 [[|]|e]]; try reflexivity.
+  unfold copy_file, copy_file_gen, dir_prep, copy_body, after_failed_create. destruct (l_exists m_step sl (copy_dir name)) as [sl0 [[|]|e]]; try reflexivity.
   all: destruct (m_step sl0 (MkdirAll (copy_dir name) 511)) as [s r]; destruct r; reflexivity.
 Qed.
 
